@@ -846,7 +846,8 @@ func (g *lgen) response(from string, depth int) map[string]any {
 
 var lDocURIs = []string{"/api/root.json", "/api/ext.json", "/api/sub/deep.json", "/shared.json", "http://h.example/defs/remote.json"}
 var lSingleURIs = []struct{ uri, kind string }{{"/api/one_schema.json", "schema"}, {"/api/sub/one_response.json", "response"},
-	{"/models/one_param.json", "parameter"}, {"/api/one_scheme.json", "securityScheme"}, {"/api/sub/one_example.json", "example"}}
+	{"/models/one_param.json", "parameter"}, {"/api/one_scheme.json", "securityScheme"}, {"/api/sub/one_example.json", "example"},
+	{"/api/bodies/one_body.json", "requestBody"}, {"/models/one_header.json", "header"}, {"/api/sub/one_link.json", "link"}}
 
 func lRandom(r *Rng) LCase {
 	g := &lgen{r: r, targets: map[string][][2]string{}, faulty: r.Chance(30)}
